@@ -839,3 +839,274 @@ Proof.
   destruct (turns (run_case sc)) as [|t0 ts]; [contradiction|].
   destruct V2 as (V2 & V3 & V4). rewrite V2, V3, V4. reflexivity.
 Qed.
+
+(* ====================================================================== *)
+(* C05: the inside of a simple-query cycle — the model satisfies [cycle_ok] *)
+
+(* the oracle's cycle state mirrors the result writer between two operations *)
+Definition qmatch (q : qstate) (w : wstate) : Prop :=
+  q_ok q = true /\ q_err q = false /\ q_exec q = true /\ q_pend q = 0 /\
+  q_rows q = w_written w /\ q_closed q = w_closed w.
+
+Lemma q_run_op c cols fmts o w fs tl evs w' fs' st q :
+  hop_nocopy o = true -> w_copy w = false -> qmatch q w ->
+  run_op c cols fmts o w fs tl = (evs, w', fs', st) ->
+  qmatch (fold_left q_step evs q) w'.
+Proof.
+  intros Hn Hc (A & B & C & D & E & F) H.
+  destruct q as [qe qx qr qc qp qo]; cbn in A, B, C, D, E, F. subst.
+  destruct o as [vs| | |tag|f|]; cbn [run_op hop_nocopy] in *; try discriminate.
+  - destruct (w_closed w) eqn:Ec.
+    + injection H as <- <- <- <-. cbn. unfold qmatch. cbn. rewrite ?Ec. auto 10.
+    + destruct (write_row (cfg_encode c) cols fmts vs) as [fields|e|]; injection H as <- <- <- <-; cbn;
+        unfold qmatch; cbn; rewrite ?Ec; cbn; auto 10.
+  - injection H as <- <- <- <-. cbn. rewrite Z.eqb_refl. cbn. unfold qmatch. cbn. auto 10.
+  - destruct (w_closed w) eqn:Ec; [|destruct (negb (w_written w =? 0)) eqn:Ew]; injection H as <- <- <- <-; cbn;
+      unfold qmatch; cbn; rewrite ?Ec, ?Ew; cbn; auto 10.
+    apply negb_false_iff in Ew. apply Z.eqb_eq in Ew. rewrite Ew. auto 10.
+  - destruct (w_closed w) eqn:Ec; injection H as <- <- <- <-; cbn; unfold qmatch; cbn; rewrite ?Ec; cbn; auto 10.
+  - rewrite Hc in H. cbn in H. injection H as <- <- <- <-. cbn. unfold qmatch. cbn. auto 10.
+Qed.
+
+Lemma q_run_ops c cols fmts stop : forall ops w fs tl evs w' fs' res q,
+  forallb hop_nocopy ops = true -> w_copy w = false -> qmatch q w ->
+  run_ops c cols fmts stop ops w fs tl = (evs, w', fs', res) ->
+  qmatch (fold_left q_step evs q) w'.
+Proof.
+  induction ops as [|o r IH]; intros w fs tl evs w' fs' res q Hn Hc M H; cbn [run_ops forallb] in *.
+  - injection H as <- <- <- <-. exact M.
+  - apply andb_prop in Hn as [Hn1 Hn2].
+    destruct (run_op c cols fmts o w fs tl) as [[[evs1 w1] fs1] st] eqn:E1.
+    pose proof (q_run_op _ _ _ _ _ _ _ _ _ _ _ _ Hn1 Hc M E1) as M1.
+    destruct (run_op_nocopy _ _ _ _ _ _ _ _ _ _ _ Hn1 Hc E1) as (C1 & _).
+    destruct st.
+    + destruct (run_ops c cols fmts stop r w1 fs1 tl) as [[[evs2 w2] fs2] res2] eqn:E2.
+      injection H as <- <- <- <-. rewrite fold_left_app. eapply IH; eauto.
+    + destruct stop.
+      * injection H as <- <- <- <-. exact M1.
+      * destruct (run_ops c cols fmts false r w1 fs1 tl) as [[[evs2 w2] fs2] res2] eqn:E2.
+        injection H as <- <- <- <-. rewrite fold_left_app. eapply IH; eauto.
+    + injection H as <- <- <- <-. exact M1.
+Qed.
+
+(* between statements: no error reported yet, nothing pending *)
+Definition qpre (q : qstate) : Prop := q_ok q = true /\ q_err q = false /\ q_pend q = 0.
+
+Lemma qmatch_pre q w : qmatch q w -> qpre q.
+Proof. intros (A & B & C & D & _). repeat split; assumption. Qed.
+
+Lemma q_run_stmt c s fmts params fs tl evs fs' res q :
+  stmt_nocopy s = true -> qpre q ->
+  run_stmt c s fmts params fs tl = (evs, fs', res) ->
+  qpre (fold_left q_step evs q).
+Proof.
+  unfold run_stmt. intros N (A & B & C) H.
+  destruct (run_ops c (s_cols s) fmts (s_stop s) (s_prog s) w_init fs tl) as [[[evs0 w] fs0] r0] eqn:E.
+  injection H as <- <- <-. cbn [fold_left].
+  apply (qmatch_pre _ w).
+  refine (q_run_ops c (s_cols s) fmts (s_stop s) (s_prog s) w_init fs tl evs0 w fs0 r0 _ N (eq_refl : w_copy w_init = false) _ E).
+  destruct q as [qe qx qr qc qp qo]; cbn in A, B, C. subst. cbn. repeat split.
+Qed.
+
+Lemma q_define cols fmts q : qpre q -> qpre (fold_left q_step (define_evs cols fmts) q).
+Proof.
+  intros (A & B & C). destruct cols; [repeat split; assumption|].
+  destruct q as [qe qx qr qc qp qo]; cbn in A, B, C. subst. cbn. repeat split.
+Qed.
+
+Lemma q_run_stmts c : text_safe c -> forall ss fs tl evs fs' crashed q,
+  forallb stmt_nocopy ss = true -> qpre q ->
+  run_stmts c ss fs tl = (evs, fs', crashed) ->
+  q_ok (fold_left q_step evs q) = true.
+Proof.
+  intros Hts. induction ss as [|s r IH]; intros fs tl evs fs' crashed q N Q H;
+    pose proof (run_stmts_no_crash _ _ _ _ _ _ _ Hts H) as Hcr; cbn [run_stmts forallb] in *.
+  - injection H as <- <- <-. destruct Q as (A & B & C).
+    destruct q as [qe qx qr qc qp qo]; cbn in A, B, C. subst. reflexivity.
+  - apply andb_prop in N as [N1 N2].
+    destruct (run_stmt c s [] [] fs tl) as [[evs1 fs1] res] eqn:E1.
+    pose proof (q_run_stmt _ _ _ _ _ _ _ _ _ _ N1 (q_define (s_cols s) [] q Q) E1) as Q1.
+    destruct res.
+    + destruct (run_stmts c r fs1 tl) as [[evs2 fs2] cr] eqn:E2.
+      injection H as <- <- <-. rewrite !fold_left_app. eapply IH; eauto.
+    + injection H as <- <- <-. rewrite !fold_left_app.
+      destruct Q1 as (A & B & C).
+      destruct (fold_left q_step evs1 (fold_left q_step (define_evs (s_cols s) []) q)) as [qe qx qr qc qp qo];
+        cbn in A, B, C. subst. reflexivity.
+    + injection H as <- <- <-. discriminate Hcr.
+Qed.
+
+Definition not_emptyq (m : bmsg) : bool := match m with BEmptyQuery => false | _ => true end.
+Lemma handler_not_emptyq ms : forallb handler_msg ms = true -> forallb not_emptyq ms = true.
+Proof.
+  induction ms as [|m r IH]; [reflexivity|]. cbn [forallb]. intros H. apply andb_prop in H as [H1 H2].
+  rewrite (IH H2). destruct m; cbn in *; try discriminate; reflexivity.
+Qed.
+
+Lemma run_stmts_not_emptyq c : forall ss fs tl evs fs' crashed,
+  run_stmts c ss fs tl = (evs, fs', crashed) -> forallb not_emptyq (Oracles.outs evs) = true.
+Proof.
+  induction ss as [|s r IH]; intros fs tl evs fs' crashed H; cbn [run_stmts] in H.
+  - injection H as <- <- <-. reflexivity.
+  - destruct (run_stmt c s [] [] fs tl) as [[evs1 fs1] res] eqn:E1.
+    destruct (run_stmt_spec _ _ _ _ _ _ _ _ _ E1) as (A1 & _).
+    pose proof (handler_not_emptyq _ A1) as N1. rewrite <- outs_eq in N1.
+    assert (D : forallb not_emptyq (Oracles.outs (define_evs (s_cols s) [])) = true) by (destruct (s_cols s); reflexivity).
+    destruct res.
+    + destruct (run_stmts c r fs1 tl) as [[evs2 fs2] cr] eqn:E2.
+      injection H as <- <- <-. rewrite !oouts_app, !forallb_app, D, N1, (IH _ _ _ _ _ E2). reflexivity.
+    + injection H as <- <- <-. rewrite !oouts_app, !forallb_app, D, N1. reflexivity.
+    + injection H as <- <- <-. rewrite !oouts_app, !forallb_app, D, N1. reflexivity.
+Qed.
+
+Lemma not_emptyq_existsb l : forallb not_emptyq l = true ->
+  existsb (fun m : bmsg => match m with BEmptyQuery => true | _ => false end) l = false.
+Proof.
+  induction l as [|m r IH]; [reflexivity|]. cbn [forallb existsb]. intros H. apply andb_prop in H as [N1 N2].
+  rewrite (IH N2). destruct m; cbn in *; try discriminate; reflexivity.
+Qed.
+
+(* the events of an answered simple Query pass the oracle's cycle grammar *)
+Lemma query_cycle_ok c body rest tl evs fs' :
+  cfg_nocopy c -> text_safe c ->
+  simple_query c body rest tl = (evs, fs', Continue) ->
+  cycle_ok evs = true.
+Proof.
+  intros Hcfg Hts H.
+  destruct (simple_query_cycle _ _ _ _ _ _ _ H eq_refl) as (_ & pre & Ho & Hn & He).
+  pose proof (shape_simple_cycle pre Hn He) as SS. rewrite <- Ho, <- outs_eq in SS.
+  unfold simple_query in H.
+  destruct (take_cstr body) as [[q r0]|]; [|discriminate].
+  destruct (is_blank q); [injection H as <- <-; reflexivity|].
+  destruct (cfg_parse c q) as [e|ss] eqn:Ep; [injection H as <- <-; reflexivity|].
+  destruct ss as [|s1 r]; [injection H as <- <-; reflexivity|].
+  destruct (run_stmts c (s1 :: r) rest tl) as [[evs1 fs1] cr] eqn:E.
+  pose proof (run_stmts_no_crash _ _ _ _ _ _ _ Hts E) as Hcr. subst cr.
+  injection H as <- <-. unfold cycle_ok.
+  rewrite (q_run_stmts c Hts _ _ _ _ _ _ q0 (Hcfg _ _ Ep) (conj eq_refl (conj eq_refl eq_refl)) E).
+  rewrite SS. cbn [andb].
+  change (Oracles.outs (CbParse q :: evs1)) with (Oracles.outs evs1).
+  rewrite (not_emptyq_existsb _ (run_stmts_not_emptyq _ _ _ _ _ _ _ E)). reflexivity.
+Qed.
+
+(* ---------- the turns of the loop, one per frame handled, as a relation ---------- *)
+Inductive run_rel (c : cfg) (tl : rderr) : sst -> list frame -> list (list ev) -> Prop :=
+| rr_nil st : run_rel c tl st [] []
+| rr_stop st f rest evs st' fs' :
+    cmd c st f rest tl = (evs, st', fs', Stop) -> no_consume evs = true ->
+    run_rel c tl st (f :: rest) [evs ++ [Closed]]
+| rr_cont st f rest evs st' ts :
+    cmd c st f rest tl = (evs, st', rest, Continue) -> no_consume evs = true -> st_nocopy st' ->
+    run_rel c tl st' rest ts ->
+    run_rel c tl st (f :: rest) ((evs ++ endmark rest) :: ts).
+
+Definition t_of (st : sst) : tstate := {| t_discard := st_discard st; t_copy := false; t_ok := true; t_why := 0 |}.
+Lemma t_of_match st : tmatch (t_of st) st.
+Proof. repeat split. Qed.
+
+Lemma loop_run_rel c tl : cfg_nocopy c -> text_safe c -> forall fuel st fs pre,
+  st_nocopy st -> no_consume pre = true -> (List.length fs < fuel)%nat ->
+  exists ts, split_consume (rev pre) (loop fuel c st fs tl) = (pre ++ endmark fs) :: ts /\ run_rel c tl st fs ts.
+Proof.
+  intros Hcfg Hts. induction fuel as [|fuel IH]; intros st fs pre I P Hl; [lia|].
+  destruct fs as [|f rest].
+  - exists []. cbn [loop split_consume endmark]. cbn [rev]. rewrite rev_involutive. split; [reflexivity|constructor].
+  - cbn [loop]. destruct (cmd c st f rest tl) as [[[evs st'] fs'] k] eqn:E.
+    destruct (turn_cmd _ _ _ _ _ _ _ _ _ _ Hcfg Hts I (t_of_match st) E) as (Pe & I' & KC & _).
+    destruct k.
+    + destruct (KC eq_refl) as [-> _].
+      destruct (IH st' rest evs I' Pe) as (ts' & S1 & S2); [cbn [List.length] in Hl; lia|].
+      exists ((evs ++ endmark rest) :: ts').
+      cbn [split_consume endmark]. rewrite rev_involutive, app_nil_r.
+      rewrite split_plain by exact Pe. rewrite app_nil_r, S1.
+      split; [reflexivity|]. econstructor; eauto.
+    + exists [evs ++ [Closed]].
+      cbn [split_consume endmark]. rewrite rev_involutive, app_nil_r.
+      rewrite split_plain by exact Pe. rewrite app_nil_r. cbn [split_consume].
+      cbn [rev]. rewrite rev_involutive.
+      split; [reflexivity|]. econstructor; eauto.
+Qed.
+
+Lemma cycles_nil fs : cycles_ok fs [] = true.
+Proof. destruct fs as [|[] ?]; reflexivity. Qed.
+
+Lemma run_rel_cycles c tl : cfg_nocopy c -> text_safe c -> forall st fs ts,
+  st_nocopy st -> run_rel c tl st fs ts -> cycles_ok fs ts = true.
+Proof.
+  intros Hcfg Hts st fs ts I R. induction R as [st|st f rest evs st' fs' E P|st f rest evs st' ts E P I' R IH].
+  - reflexivity.
+  - (* the connection ends with this frame *)
+    destruct f as [t body| | |]; cbn [cycles_ok]; rewrite cycles_nil; try reflexivity. rewrite andb_true_r.
+    destruct (Byte.eqb t x51) eqn:T; [|reflexivity]. apply Byte.byte_dec_bl in T. subst t.
+    cbn [cmd] in E. destruct (st_discard st && negb (Byte.eqb x51 x53) && negb (Byte.eqb x51 x58)) eqn:DD; [discriminate|].
+    cbn in DD. rewrite !andb_true_r in DD.
+    replace (Byte.eqb x51 x51) with true in E by reflexivity.
+    destruct (simple_query c body rest tl) as [[evs0 fs0] k0] eqn:Q. injection E as <- <- <- ->.
+    destruct (turn_query c (t_of st) st body rest tl evs0 fs0 Stop [] Hcfg Hts (t_of_match st) eq_refl DD Q) as (_ & _ & X).
+    destruct (X eq_refl) as [_ W]. rewrite W. reflexivity.
+  - specialize (IH I').
+    destruct f as [t body| | |]; cbn [cycles_ok]; try exact IH. rewrite IH, andb_true_r.
+    destruct (Byte.eqb t x51) eqn:T; [|reflexivity]. apply Byte.byte_dec_bl in T. subst t.
+    rewrite filter_turn by (auto; apply endmark_closed).
+    cbn [cmd] in E. destruct (st_discard st && negb (Byte.eqb x51 x53) && negb (Byte.eqb x51 x58)) eqn:DD.
+    { injection E as <- <- . match goal with |- (if ?b then _ else _) = _ => destruct b end; reflexivity. }
+    replace (Byte.eqb x51 x51) with true in E by reflexivity.
+    destruct (simple_query c body rest tl) as [[evs0 fs0] k0] eqn:Q. injection E as <- <- <- ->.
+    pose proof (query_cycle_ok c body _ tl evs0 _ Hcfg Hts Q) as CY.
+    match goal with |- (if ?b then _ else _) = _ => destruct b end; [|reflexivity]. destruct evs0; [reflexivity|exact CY].
+Qed.
+
+Definition cycles_verdict (fs : list frame) (log : list ev) : Prop :=
+  match turns log with _ :: ts => cycles_ok fs ts = true | [] => False end.
+
+Lemma cycles_short fs pre : no_consume pre = true -> cycles_verdict fs (pre ++ [Closed]).
+Proof.
+  intros P. unfold cycles_verdict, turns. rewrite split_plain by exact P. cbn [split_consume]. apply cycles_nil.
+Qed.
+
+Lemma session_cycles c after s : cfg_nocopy c -> text_safe c ->
+  forall fs, (forall cparams aevs s', read_params (S (List.length after)) after = Some cparams ->
+               auth_phase c cparams s = (aevs, s', true) -> fs = fst (frames (cfg_limit c) s')) ->
+  cycles_verdict fs (session c after s).
+Proof.
+  intros Hcfg Hts fs Hfs. unfold session.
+  destruct (read_params (S (List.length after)) after) as [cparams|] eqn:Er; [|apply (cycles_short fs []); reflexivity].
+  destruct (auth_phase c cparams s) as [[aevs s'] ok] eqn:Ea.
+  pose proof (auth_phase_plain _ _ _ _ _ _ Ea) as Pa.
+  destruct ok; cbn [negb]; [|apply cycles_short; exact Pa].
+  specialize (Hfs _ _ _ eq_refl Ea).
+  pose proof (run_mws_plain (cfg_mws c) 0) as Pm.
+  destruct (run_mws (cfg_mws c) 0) as [mevs mok]. cbn [fst] in Pm.
+  set (pevs := map (fun kv : bytes * bytes => Out (BParamStatus (fst kv) (snd kv))) (server_params c (param_get (bs "user") cparams))).
+  assert (Pp : no_consume pevs = true) by apply pstatus_plain.
+  destruct mok; cbn [negb].
+  - destruct (frames (cfg_limit c) s') as [fs0 tl] eqn:Ef. cbn [fst] in Hfs. subst fs0.
+    rewrite !app_assoc.
+    set (pre := ((aevs ++ pevs) ++ mevs) ++ [Out ready]).
+    assert (Ppre : no_consume pre = true) by (unfold pre; rewrite !no_consume_app, Pa, Pp, Pm; reflexivity).
+    destruct (loop_run_rel c tl Hcfg Hts (S (List.length fs)) st_init fs pre st_init_nocopy Ppre (Nat.lt_succ_diag_r _))
+      as (ts & S1 & S2).
+    unfold cycles_verdict, turns. rewrite split_plain by exact Ppre. rewrite app_nil_r, S1.
+    eapply run_rel_cycles; eauto. exact st_init_nocopy.
+  - rewrite !app_assoc. apply cycles_short. rewrite !no_consume_app, Pa, Pp, Pm. reflexivity.
+Qed.
+
+Theorem oracle_C05_model sc :
+  sc_auth sc = None -> case_nocopy sc = true ->
+  (forall v after rest, start (cfg_of_case sc) (sc_raw sc) = Some (v, after, rest) -> v <> version_ssl) ->
+  oracle_C05 sc (run_case sc) = true.
+Proof.
+  intros Ha Hn Hssl. unfold oracle_C05. rewrite (oracle_turns_model sc Ha Hn Hssl). cbn [andb].
+  destruct (t_copy (turn_verdict sc (run_case sc))); [reflexivity|].
+  assert (V : cycles_verdict (client_frames sc) (run_case sc)).
+  { unfold run_case, serve.
+    destruct (start (cfg_of_case sc) (sc_raw sc)) as [[[v after] rest]|] eqn:Es; [|apply (cycles_short _ []); reflexivity].
+    destruct (v =? version_cancel); [apply (cycles_short _ []); reflexivity|].
+    destruct (Z.eqb_spec v version_ssl) as [->|_]; [exfalso; eapply Hssl; eauto|].
+    apply session_cycles; [apply case_cfg_nocopy; exact Hn|apply case_text_safe|].
+    intros cparams aevs s' _ Hauth. unfold auth_phase in Hauth. cbn [cfg_of_case cfg_auth] in Hauth. rewrite Ha in Hauth.
+    injection Hauth as _ <-. unfold client_frames. unfold start in Es. cbn [cfg_of_case cfg_limit] in *.
+    destruct (untyped (sc_limit sc) (sc_raw sc)) as [[body rest0]|]; [|discriminate].
+    destruct (p_u32 body) as [[v0 after0]|]; [|discriminate]. injection Es as _ _ <-. rewrite Ha. reflexivity. }
+  unfold cycles_verdict in V. destruct (turns (run_case sc)) as [|t0 ts]; [reflexivity|exact V].
+Qed.
